@@ -108,7 +108,7 @@ def library(case, thresholds=None, pen_table=None):
             {'roadm-path-impairments-id': 1, 'roadm-add-path': [
                 {'frequency-range': {'lower-frequency': 186e12, 'upper-frequency': 192.2e12}, 'roadm-pmd': 1e-12, 'roadm-pdl': 0.6,
                  'roadm-maxloss': 2, 'roadm-osnr': 36},
-                {'frequency-range': {'lower-frequency': 192.2e12, 'upper-frequency': 198e12}, 'roadm-pmd': 1e-12, 'roadm-pdl': 0.6,
+                {'frequency-range': {'lower-frequency': 192.2e12, 'upper-frequency': 198e12}, 'roadm-pmd': 1e-12, 'roadm-pdl': 1.1,
                  'roadm-maxloss': 2, 'roadm-osnr': 43}]},
             {'roadm-path-impairments-id': 2, 'roadm-drop-path': [
                 {'frequency-range': {'lower-frequency': 186e12, 'upper-frequency': 198e12}, 'roadm-pmd': 1e-12, 'roadm-pdl': 0.7,
